@@ -113,7 +113,7 @@ def report(chk, own_prop, results, bad_events, attribute=None):
             prop = KIND_PROP.get(m["kind"], None) or suite_prop or (attribute(m) if attribute else None)
             props = {prop}
             spec_v = (m.get("expected") or {}).get("v") if (m.get("expected") or {}).get("status") == "inconclusive" else None
-            if m["kind"] == "panic" and spec_v is None:
+            if m["kind"] in ("panic", "parse-panic") and spec_v is None:
                 # the specification predicted an outcome of the abstract machine for this case and the
                 # implementation panicked instead: also a violation of the property the case belongs to
                 props.add(suite_prop or (attribute(m) if attribute else None))
